@@ -705,6 +705,19 @@ def corpus() -> List[dict]:
             {"kind": "bar", "arg": dict(p=1, t=3, o=10, h=11, l=9, c=10, v=1000)},
             {"kind": "bar", "arg": dict(p=1, t=3, o=10, h=14, l=7, c=10, v=1000, dup=True, span=4)},
             {"kind": "get_open_orders", "arg": 2}]})
+    # a sell whose proceeds do not cover the minimum fee reserves base AND quote; when it fills partially (share liquidity)
+    # what the fill debits is released from the reservation of every symbol it debits, the rest stays reserved
+    for amount, vol in ((4, 8), (6, 8), (3, 4)):
+        cfg = base_cfg(init={"BTC": 10, "USD": 10}, feeMode="pct", feeN=1, feeD=100, minFeeN=5, minFeeD=1,
+                       liqMode="share", vlN=1, vlD=4, vs=1)
+        out.append({"cfg": cfg, "steps": [
+            {"kind": "bar", "arg": dict(p=1, t=1, o=1, h=1, l=1, c=1, v=1000)},
+            {"kind": "create_order", "arg": _req(type="limit", op="sell", amount=amount, limit=1)},
+            {"kind": "bar", "arg": dict(p=1, t=2, o=1, h=1, l=1, c=1, v=vol)},
+            {"kind": "get_open_orders", "arg": 2},
+            {"kind": "create_order", "arg": _req(type="limit", op="buy", amount=1, limit=1)},
+            {"kind": "bar", "arg": dict(p=1, t=3, o=1, h=1, l=1, c=1, v=vol)},
+            {"kind": "bar", "arg": dict(p=1, t=4, o=1, h=1, l=1, c=1, v=1000)}]})
     # KF-1 (known finding, C04): a fill whose quote amount rounds to zero is ignored -- kept so that every run reports it
     cfg = base_cfg(scale={"BTC": 100, "USD": 100}, init={"BTC": 0, "USD": 1000})
     out.append({"cfg": cfg, "steps": [
